@@ -27,6 +27,7 @@ Theorem C18_not_initialised : forall e c w, c <> CInit -> w_inited w = false -> 
 Proof. exact not_inited_refused. Qed.
 Theorem C18_add_unknown_path : forall e w x args a,
   w_inited w = true -> loaded w x -> In a args -> exists_on_disk w a = false -> tracked w a = false ->
+  is_dir (idx_of w) a = false ->
   step (ACmd e (CAdd args)) w = (w, OErr, []).
 Proof. exact add_missing_refused. Qed.
 Theorem C18_rm_unknown_path : forall e w x args a,
